@@ -29,6 +29,9 @@ func c17Eval(b *board.Board) Score { return eval.Eval(b, &eval.Coefficients) }
 // evalClasses are rich in evaluation terms (special cases included).
 var evalClasses = []string{"KBNk", "KBBk", "KNNk", "KPPk", "KNPk", "KRRk", "KQkp", "KPkp", "Kkbn", "KRkr", "KBPk", "KRPk", "KQkq", "Kkpp", "KNkp", "KBkp", "KRkp", "KBkn", "KRkb"}
 
+// evalSpecialClasses have an evaluation branch of their own (the knight-and-bishop mate, for either colour): never rotated out.
+var evalSpecialClasses = []string{"KBNk", "Kkbn"}
+
 func c17Replay(class string, raw json.RawMessage) (bool, string) {
 	var c c17Case
 	if err := json.Unmarshal(raw, &c); err != nil {
@@ -104,7 +107,7 @@ func runC17(r *ev.Run) {
 	}
 
 	classes := universe.ThreeMan()
-	classes = append(classes, parseClasses(seedPick(evalClasses, r.Seed, ev.Pick(r, 3, len(evalClasses))))...)
+	classes = append(classes, parseClasses(uniqStrings(append(append([]string(nil), evalSpecialClasses...), seedPick(evalClasses, r.Seed, ev.Pick(r, 3, len(evalClasses)))...)))...)
 	r.Set("classes", classNames(classes))
 	var sc atomic.Int64
 	forClasses(r, classes, universe.Opts{}, func() *c17Worker { return &c17Worker{} }, func(w *c17Worker, p *refchess.Pos) {
